@@ -18,24 +18,28 @@ type Expect struct {
 	Unspec     []string // non-empty: outside the specified territory
 	UnspecVals []string // non-empty: option values / Called are unspecified, everything else is compared
 
-	Err        bool
-	ErrKind    string // ambiguous | missing-arg | dash-arg | convert | unknown | required | keyvalue
-	ErrName    string // option name / token the message must quote
-	ErrCands   []string
-	IsParsing  int // 1 must be ErrorParsing, 0 unspecified
-	Remaining  []string
-	Vals       map[string]string
-	Called     map[string]bool
-	CalledAs   map[string]string
-	WarnNames  []string // unknown option names warned about (Warn mode)
-	Unknowns   []string // unknown tokens in order
-	Consumed   []bool   // per argv index: consumed as option / value / command name
-	TermIdx    int      // index of the `--` reached by the parser, -1 if none
-	StopIdx    int      // index at which require-order stopped, -1 if none
-	Level      string   // path of the selected command level
-	HelpCalled bool
-	Missing    []string // missing required options (paths) of the selected level
-	MissingMsg map[string]string
+	Err       bool
+	ErrKind   string // ambiguous | missing-arg | dash-arg | convert | unknown | required | keyvalue
+	ErrName   string // option name / token the message must quote
+	ErrCands  []string
+	IsParsing int // 1 must be ErrorParsing, 0 unspecified
+	Remaining []string
+	// RemainingAll is the conservation view of Remaining: every token that is not consumed as a known option, a value
+	// or a command name, whatever the unknown-option policy does with the parse (kept even when Err is set because of
+	// an unknown option).
+	RemainingAll []string
+	Vals         map[string]string
+	Called       map[string]bool
+	CalledAs     map[string]string
+	WarnNames    []string // unknown option names warned about (Warn mode)
+	Unknowns     []string // unknown tokens in order
+	Consumed     []bool   // per argv index: consumed as option / value / command name
+	TermIdx      int      // index of the `--` reached by the parser, -1 if none
+	StopIdx      int      // index at which require-order stopped, -1 if none
+	Level        string   // path of the selected command level
+	HelpCalled   bool
+	Missing      []string // missing required options (paths) of the selected level
+	MissingMsg   map[string]string
 
 	// swallowed `--`: the terminator was legitimately taken as a mandatory value
 	DashDashAsValue bool
@@ -340,6 +344,7 @@ LOOP:
 			ex.TermIdx = i
 			ex.Consumed[i] = true
 			ex.Remaining = append(ex.Remaining, argv[i+1:]...)
+			ex.RemainingAll = append(ex.RemainingAll, argv[i+1:]...)
 			break
 		}
 		if IsOptionLooking(t) {
@@ -367,6 +372,7 @@ LOOP:
 						}
 						ex.StopIdx = tokIdx
 						ex.Remaining = append(ex.Remaining, argv[tokIdx:]...)
+						ex.RemainingAll = append(ex.RemainingAll, argv[tokIdx:]...)
 						break LOOP
 					}
 					tokenUnknown = true
@@ -386,6 +392,7 @@ LOOP:
 			if tokenUnknown {
 				unknowns = append(unknowns, unk{t, unkNames, level})
 				ex.Unknowns = append(ex.Unknowns, t)
+				ex.RemainingAll = append(ex.RemainingAll, t)
 				if level.unknown != 0 {
 					ex.Remaining = append(ex.Remaining, t)
 				}
@@ -405,9 +412,11 @@ LOOP:
 		if sp.requireOrder(level) {
 			ex.StopIdx = i
 			ex.Remaining = append(ex.Remaining, argv[i:]...)
+			ex.RemainingAll = append(ex.RemainingAll, argv[i:]...)
 			break
 		}
 		ex.Remaining = append(ex.Remaining, t)
+		ex.RemainingAll = append(ex.RemainingAll, t)
 		i++
 	}
 	ex.Level = level.path
